@@ -401,6 +401,8 @@ def set_elastic_params(elas_prm_names, elas_prm_dflt_vals,
         check_ii(prmcase, eky0, ns['plda'], ivar_pnms['pg'], ns['pg'],
                  blk_dbg_prm)
     elif prmcase == 2:
+        if ns['pnu'] == 0.0:
+            raise ValueError('lame_mod > 0 and poisson_ratio = 0 do not define a material.')
         # given -- lame_mod, poisson_ratio
         # Neg. poisson and FPEs not possible.
         ns['pe'] = ns['plda']*(1 + ns['pnu'])*(1 - 2 * ns['pnu'])/ns['pnu']
